@@ -47,26 +47,25 @@ inductive IntRes where
   | overflow
 deriving Repr, DecidableEq
 
-/-- continuation octets; `i` counts octets consumed so far. The Go code accumulates into a `uint64`
-and fails once a digit would be shifted by 64 or more, or the value no longer fits. -/
-def readCont : Bytes → Nat → Nat → IntRes
+/-- continuation octets; `i` counts the digits consumed so far, `m` is the saturated prefix value
+`2^n - 1`. The Go code accumulates into a `uint64` and fails as soon as a digit would be shifted by 64
+or more, would lose bits, or the sum with the prefix no longer fits. -/
+def readCont (m : Nat) : Bytes → Nat → Nat → IntRes
   | [], _, _ => .needMore
   | c :: cs, i, acc =>
     if 7 * i ≥ 64 then .overflow
     else
       let acc' := acc + (c % 128) * 2 ^ (7 * i)
-      if acc' ≥ 2 ^ 64 then .overflow
-      else if c < 128 then .ok acc' cs
-      else readCont cs (i + 1) acc'
+      if acc' + m ≥ 2 ^ 64 then .overflow
+      else if c < 128 then .ok (acc' + m) cs
+      else readCont m cs (i + 1) acc'
 
 def readInt (n : Nat) : Bytes → IntRes
   | [] => .needMore
   | b0 :: rest =>
     let m := 2 ^ n - 1
     if b0 % 2 ^ n ≠ m then .ok (b0 % 2 ^ n) rest
-    else match readCont rest 0 0 with
-      | .ok v r => if v + m ≥ 2 ^ 64 then .overflow else .ok (v + m) r
-      | e => e
+    else readCont m rest 0 0
 
 /-- continuation digits of `v` (already reduced by the prefix maximum) -/
 def contBytes (v : Nat) : Bytes :=
@@ -188,6 +187,24 @@ def nextFuel : Nat → DecState → Bool → Nat → Bytes → DecRes
 def Dec.next (st : DecState) (blockStart : Bool) (fieldsProcessed : Nat) (b : Bytes) : DecRes :=
   nextFuel (b.length + 1) st blockStart fieldsProcessed b
 
+/-- the decoder state a *failed* `nextField` call leaves behind: the dynamic table size updates it
+accepted before it ran out of octets have already been applied (`hp.maxTableSize = n; hp.shrink()`) -/
+def updFuel : Nat → DecState → Bool → Nat → Bytes → DecState
+  | 0, st, _, _, _ => st
+  | _, st, _, _, [] => st
+  | fuel + 1, st, blockStart, fieldsProcessed, c :: rest =>
+    if 32 ≤ c ∧ c < 64 then
+      match readInt 5 (c :: rest) with
+      | .ok n r =>
+        if !blockStart || fieldsProcessed > 0 then st
+        else if n > st.limit then st
+        else updFuel fuel { st with maxSize := n, dyn := evict st.dyn n } blockStart fieldsProcessed r
+      | _ => st
+    else st
+
+def Dec.afterUpdates (st : DecState) (blockStart : Bool) (fieldsProcessed : Nat) (b : Bytes) : DecState :=
+  updFuel (b.length + 1) st blockStart fieldsProcessed b
+
 /-- SETTINGS_HEADER_TABLE_SIZE applied to a decoder (`SetMaxTableSize` on `dec`; not called by the
 server today, which keeps the default 4096 it advertises) -/
 def DecState.setLimit (st : DecState) (n : Nat) : DecState :=
@@ -199,6 +216,8 @@ structure EncState where
   dyn : List (Bytes × Bytes) := []
   maxSize : Nat := Gen.c_defaultHeaderTableSize
   pending : Bool := false
+  /-- `pendingMinSize`: smallest size set since the peer was last told (meaningful while `pending`) -/
+  minPending : Nat := Gen.c_defaultHeaderTableSize
   disableCompression : Bool := false
   disableDynamic : Bool := false
 deriving Repr, DecidableEq
@@ -206,7 +225,8 @@ deriving Repr, DecidableEq
 /-- `SetMaxTableSize` -/
 def EncState.setMax (st : EncState) (n : Nat) : EncState :=
   if st.maxSize = n then st
-  else { st with maxSize := n, pending := true, dyn := evict st.dyn n }
+  else { st with minPending := if !st.pending || n < st.minPending then n else st.minPending,
+                 maxSize := n, pending := true, dyn := evict st.dyn n }
 
 def findIdx (l : List (Bytes × Bytes)) (p : Bytes × Bytes → Bool) : Option Nat :=
   match l.findIdx? p with
@@ -232,7 +252,9 @@ def search (st : EncState) (f : Field) : Nat × Bool :=
 
 /-- `AppendHeader`: returns the new state and the octets appended -/
 def Enc.append (st : EncState) (f : Field) (store : Bool) : EncState × Bytes :=
-  let pre := if st.pending then writeInt 5 32 st.maxSize else []
+  let pre := if st.pending then
+      (if st.minPending < st.maxSize then writeInt 5 32 st.minPending else []) ++ writeInt 5 32 st.maxSize
+    else []
   let st := { st with pending := false }
   let huff := !st.disableCompression
   let (idx, full) := search st f
@@ -251,5 +273,42 @@ def Enc.append (st : EncState) (f : Field) (store : Bool) : EncState × Bytes :=
   else
     ({ st with dyn := insert st.dyn (f.name, f.value) st.maxSize },
       pre ++ [64] ++ writeString f.name huff ++ writeString f.value huff)
+
+/-! ## header-block reassembly: the HPACK part of `serverConn.handleHeaderFrame`
+
+`prev` is `strm.previousHeaderBytes`: the octets of a field that the previous frame cut short. -/
+namespace Block
+
+structure State where
+  dec : DecState := {}
+  prev : Bytes := []
+deriving Repr, DecidableEq
+
+inductive Res where
+  | ok (st : State) (fields : List Field)
+  /-- COMPRESSION_ERROR; the fields decoded before it were already handed on -/
+  | err (fields : List Field)
+deriving Repr, DecidableEq
+
+/-- the `for len(b) > 0` loop. `hf` is the caller's `HeaderField`, acquired (empty) once per frame and
+reused from field to field: when `nextField` returns without having decoded a field (input that held
+dynamic table size updates only) the loop still hands `hf` on — a field the peer never sent (F05). -/
+def loop : Nat → DecState → Bool → Bool → Nat → Field → Bytes → List Field → Res
+  | 0, dec, _, _, _, _, _, acc => .ok ⟨dec, []⟩ acc
+  | fuel + 1, dec, blockStart, endHeaders, fp, hf, b, acc =>
+    if b.isEmpty then .ok ⟨dec, []⟩ acc
+    else match Dec.next dec blockStart fp b with
+      | .ok dec' (some f) rest => loop fuel dec' blockStart endHeaders (fp + 1) f rest (acc ++ [f])
+      | .ok dec' none rest => loop fuel dec' blockStart endHeaders (fp + 1) hf rest (acc ++ [hf])
+      | .needMore => if endHeaders then .err acc else .ok ⟨Dec.afterUpdates dec blockStart fp b, b⟩ acc
+      | .err => .err acc
+
+/-- one HEADERS (`cont = false`) or CONTINUATION (`cont = true`) payload -/
+def feed (st : State) (cont endHeaders : Bool) (payload : Bytes) : Res :=
+  let blockStart := !cont && st.prev.isEmpty
+  let b := st.prev ++ payload
+  loop b.length st.dec blockStart endHeaders 0 ⟨[], [], false⟩ b []
+
+end Block
 
 end H2.Hpack
